@@ -13,7 +13,7 @@ import (
 func init() {
 	register(&propInfo{
 		id: "C12", fn: checkC12, multiConfig: true,
-		explanation: "(r1) every return of tversion.handle has static type *rversion (never an error reply); (r2) the reply on the msize==0, unparsable-version and non-.L base-version paths is the literal {MSize: 0, Version: \"unknown\"}, and the success reply is returned only when msize != 0, the version parsed and the base version is 9P2000.L; (r3) the msize of the success reply is the request's msize replaced by the 4 MiB constant exactly under request > 4 MiB, the version is the requested one replaced by highestSupportedVersion (7) exactly under requested > 7, and the same clamped values are stored in cs.messageSize/cs.version and size the read-buffer pool; (r4) writer/reader agreement: versionString returns string(baseVersion) for 0 and otherwise a format whose '.'-separated constant segments are exactly the literals parseVersion compares, followed by %d of a uint32 matching strconv.ParseUint(_, 10, 32); parseVersion demands exactly 4 segments and a non-empty number and maps \"9P2000.L\" to (L, 0); (r5) on NewClient's success path c.version is assigned the parsed reply version and the MSize field of the reply is read and flows into c.messageSize and c.payloadSize (a client that never reads the field cannot honour a lowered msize); (r6) the paths on which the reply does not parse or is not a 9P2000.L version return a non-nil error and no *Client. (r1, continued) a Tversion is never refused by size before it is read: the pre-negotiation receive limit is the 4 MiB ceiling (the rule of C02.r2).",
+		explanation: "(r1) every return of tversion.handle has static type *rversion (never an error reply); (r2) the reply on the msize==0, unparsable-version and non-.L base-version paths is the literal {MSize: 0, Version: \"unknown\"}, and the success reply is returned only when msize != 0, the version parsed and the base version is 9P2000.L; (r3) the msize of the success reply is the request's msize replaced by the 4 MiB constant exactly under request > 4 MiB, the version is the requested one replaced by highestSupportedVersion (7) exactly under requested > 7, and the same clamped values are stored in cs.messageSize/cs.version and size the read-buffer pool; (r4) writer/reader agreement: versionString returns string(baseVersion) for 0 and otherwise a format whose '.'-separated constant segments are exactly the literals parseVersion compares, followed by %d of a uint32 matching strconv.ParseUint(_, 10, 32); parseVersion demands exactly 4 segments and a non-empty number and maps \"9P2000.L\" to (L, 0); (r5) on NewClient's success path c.version is assigned the parsed reply version and the MSize field of the reply is read and flows into c.messageSize and c.payloadSize (a client that never reads the field cannot honour a lowered msize); (r6) the paths on which the reply does not parse or is not a 9P2000.L version return a non-nil error and no *Client. (r1, continued) a Tversion is never refused by size before it is read: the pre-negotiation receive limit is the 4 MiB ceiling (the rule of C02.r2). (r6) the client keeps to what it adopted: its payload size leaves room for the header and fixed part of the largest I/O frame (the rule of C13.r4).",
 		assumptions: []string{"strconv.ParseUint and strings.Split behave as documented (no sign, no spaces, leading zeros accepted)"},
 	})
 }
@@ -247,6 +247,10 @@ func checkC12(r *Run) {
 	// a Tversion carrying a 65535-byte version string is 65548 bytes long
 	if r.borrowed == nil {
 		r.borrow(checkC02, map[string]string{"r2": "r1"})
+		// r6: the client keeps to what it adopted: the payload size leaves room for the header
+		// and the fixed part of the largest I/O frame (the rule of C13.r4), so that a full chunk
+		// is a frame of at most msize bytes
+		r.borrow(checkC13, map[string]string{"r4": "r6"})
 	}
 }
 
